@@ -25,6 +25,10 @@ ENGINE_ASSUMPTIONS = [
     'CPython differential test and the seeded-defect self-test (pyvc/selftest.py)',
     'z3 5.1 (nlsat + default), cvc5 1.0.3 and sympy 1.14 (Groebner) are trusted as solvers',
     'termination of the verified functions is not proved',
+    'induction hypotheses are opaque stand-ins for sub-trees: asking one for its kind (isinstance), for its truth '
+    'value when its kind is unknown, or comparing it with another tree leaves the proved subset (the contract is '
+    'then decided on concrete trees only); type() of a stand-in and comparisons inside natively executed helpers '
+    'are answered by CPython',
     'dropped by the interpreter: docstrings, print(), warnings.warn(), Progress(...) context managers, text of '
     'f-strings that mention symbolic values',
 ]
